@@ -52,6 +52,10 @@ TEMPLATES = [
     'forall <assgn> a in start: exists <rhs> r in a: exists <digit> d in r: (= d "7")',
     'forall <assgn> a="{<var> l} := {<rhs> r}" in start: exists <assgn> b="{<var> l2} := <rhs>" in start: (before(b, a) and (= l2 r))',
     'exists <assgn> a in start: (str.contains a "7")',
+    'exists <assgn> v2="{<var> m3} := <digit>" in start: (= m3 "b")',
+    'forall <assgn> v2="{<var> m3} := <digit>" in start: (= m3 "c")',
+    'forall <assgn> v1 in start: (exists <assgn> v2="{<var> m3} := <digit>" in v1: ((not (= v2 "b := b"))))',
+    'forall <stmt> s="{<var> l} := <digit> ; {<stmt> t}" in start: (not (= l "a"))',
     'forall <stmt> s in start: direct_child(s, start)',
     'forall <stmt> s in start: forall <stmt> s2 in start: same_position(s, s2)',
     'exists <stmt> s in start: exists <stmt> s2 in start: (not same_position(s, s2))',
@@ -203,6 +207,23 @@ def run(ctx: Ctx):
     rng = ctx.rng
     for g, text, ot, comps, fn in corpus_cases():
         check_case(ctx, g, "corpus", text, ot, comps, "corpus/" + fn)
+    # every documented-style template on ALL single-cut prefixes of a few derivations of the assignment language
+    ca = G.canon(ASSGN)
+    for text in TEMPLATES:
+        fulls = []
+        for _ in range(30):
+            full = T.gen_tree(rng, ca, "<start>", rng.randint(2, 5), T.IdGen())
+            if 8 <= T.size(full) <= 40:
+                fulls.append(full)
+            if len(fulls) >= (2 if ctx.tier == "quick" else 12):
+                break
+        for full in fulls:
+            for open_t in T.single_cuts(full):
+                ids = T.IdGen(T.max_id(full) + 1000)
+                completions = [full] + [T.complete(rng, ca, open_t, ids, depth=rng.randint(2, 4)) for _ in range(3)]
+                completions = [x for x in completions if T.size(x) <= 90]
+                ctx.count("grammar", "assgn-template")
+                check_case(ctx, ASSGN, "assgn", text, open_t, completions, "template")
     n = 450 if ctx.tier == "quick" else 12000
     for i in range(n):
         ctx.check_time()
